@@ -28,6 +28,10 @@ def run(rep):
     ms.rule_formatter(rep)
     # what the listing prints per token (position, kind, keyword, text, items) is what the matcher's sink stored
     mr.rule_sink(rep, "C18.col", "C18.crlf", want=("col", "crlf", "fields"))
+    # the items of a TableRow token are the cells the splitter made of the row (one item per cell, at its column)
+    lr.rule_split(rep, "C18.split", "C18.cellcol")
+    lr.rule_split_init(rep, "C18.cells")
+    mr.rule_token_table(rep, "C18.row", "C18.rowcol")
     # "delivered or reported": only an identical message (which includes the position) is reported once
     er.rule_cap(rep, "C18.cap")
     # no hidden state: what the property promises for one use must hold for every later use as well
